@@ -1,4 +1,4 @@
-CONSTANTS MaxParams = 1 MaxVars = 2 Pool = "large" MaxCalls = 1 Mutant = "none"
+CONSTANTS MaxParams = 1 MaxVars = 2 Pool = "large" MaxCalls = 1 OptFields = {} MaxPages = 1 Mutant = "none"
 SPECIFICATION Spec
 INVARIANT Inv_Explicit
 INVARIANT Inv_NoHeaderWhenNothing
